@@ -3,7 +3,10 @@
 set -u
 b="$1"
 cd /verif
+git checkout -q -- evidence 2>/dev/null    # evidence of other runs is regenerated, never merged by hand
+if ! git diff --quiet; then git add -A; git commit -qm "wip before merging $b"; fi
 git merge --no-commit --no-ff "$b" >/tmp/merge.log 2>&1
+if grep -q "Aborting\|fatal" /tmp/merge.log; then echo "MERGE FAILED:"; cat /tmp/merge.log; exit 1; fi
 for f in MANIFEST.json lean/JinjaV/Wire/All.lean lean/JinjaV.lean; do
   git checkout --ours -- "$f" 2>/dev/null; git add "$f" 2>/dev/null
 done
